@@ -61,11 +61,43 @@ def withdrawn_undeclared_family(n, profiles, cfgs, seats=None):
                     yield with_cfgs(ecase.make(n, s, ballots, wd=wd, ud=ud), cfgs)
 
 
+_FILES = {}
+
+
+def repo_files(cfgs, max_bytes=4000, extra=('test/blt/M135.blt', 'test/blt/scotland/Langside-2007.blt')):
+    """the ballot files shipped with the repository's own tests (test/blt/**.blt), as inputs for the monitors: real elections of
+    5-13 candidates and up to thousands of ballots.  Files are used only if the real parser accepts them."""
+    import glob
+    import os
+    from . import repo
+    key = (max_bytes, tuple(extra))
+    if key not in _FILES:
+        out = []
+        root = os.path.join(repo.REPO, 'test', 'blt')
+        paths = sorted(glob.glob(os.path.join(root, '*.blt')) + glob.glob(os.path.join(root, '*', '*.blt')))
+        for path in paths:
+            rel = os.path.relpath(path, repo.REPO)
+            if os.path.getsize(path) > max_bytes and rel not in extra and not any(os.path.basename(rel) == os.path.basename(e) for e in extra):
+                continue
+            try:
+                p = repo.ElectionProfile(path=path)
+            except Exception:     # pylint: disable=broad-except
+                continue
+            if p.options:
+                continue    # embedded [droop ...] options would fight the configuration under test
+            out.append({'file': rel, 'n': p.nCand, 's': p.nSeats, 'b': rel, 'tie': None, 'wd': sorted(p.withdrawn), 'ud': sorted(p.undeclared),
+                        'equal': bool(p.ballotLinesEqual)})
+        _FILES[key] = out
+    for c in _FILES[key]:
+        yield with_cfgs(c, cfgs)
+
+
 def standard(tier, snapshots_cost=1.0):
     """the default mix used by the per-step monitors (C01, C02, C04, C09, C18):
     quick  : U(3,<=4) x s x T{id,rev} x 11 rules, U(3,5) x s x 11 rules; U(3,<=4) x s x every second entry of the option menus (thorough: all);
              U(3,<=4) x withdrawn subsets x 11 rules; x undeclared subsets x mpls(+wigm-prf); withdrawn x undeclared (overlapping) subsets x mpls; U(2,<=8);
              W(4,2,3,{1,2}) x s in {2,3} x 11 rules (4 candidates: qpq restarts, 2-step transfers);
+             the repository's own test ballot files (test/blt/**.blt: real elections of 5-13 candidates; quick: the small ones + M135 + one Glasgow ward);
              bullet piles BU(4) of sizes {0,1,2,3,5,8,13} x s in {1,2,3} (exhausting surpluses, tied tails)
     thorough adds U(3,6..7), weighted W spaces with 4 and 5 candidates, U(4,4) for five fast rules,
              equal-rank profiles Q(3,<=4) for meek/warren"""
@@ -80,6 +112,7 @@ def standard(tier, snapshots_cost=1.0):
     yield from seats_ties(4, spaces.W(4, 2, 3, (1, 2)), seats=(2, 3), ties='id', cfgs=D)
     yield from seats_ties(4, spaces.BU(4), seats=(1, 2, 3), ties='id', cfgs=D)
     yield from seats_ties(3, spaces.U(3, 5, 5), ties='id' if tier == 'quick' else 'idrev', cfgs=D)
+    yield from repo_files(D + menus[::9], max_bytes=4000 if tier == 'quick' else 10 ** 7)
     if tier == 'thorough':
         mw = [{'rule': 'meek'}, {'rule': 'warren'}] + configs.meek_menu(full=False)
         yield from seats_ties(3, spaces.Q(3, 0, 4), ties='id', cfgs=mw)
